@@ -127,3 +127,7 @@ pub proof fn lemma_walk_len_step(s: SS, t: Unifiable)
         _ => {},
     }
 }
+
+pub open spec fn resolves_const(s: SS, t: Unifiable) -> bool {
+    match ground_of(s, t) { Some(g) => is_const(g), None => false }
+}
